@@ -23,6 +23,7 @@ def plan(tier):
         I.append(inst(f"so31-form[chart={chart}]", 'harness.c17', 'so31_form', dict(chart=chart), weight=4))
     for chart in (0, 1):
         I.append(inst(f"o_to_pgl-roundtrip[det=1,chart={chart}]", 'harness.c17', 'o_to_pgl_roundtrip', dict(chart=chart, sign=1), weight=20, timeout_s=900))
+        I.append(inst(f"o_to_pgl-roundtrip[det=-1,chart={chart}]", 'harness.c17', 'o_to_pgl_roundtrip', dict(chart=chart, sign=-1), weight=20, timeout_s=900))
     for n in ([2] if tier == 'quick' else [2, 3]):
         I.append(inst(f"killing[n={n}]", 'harness.c17', 'killing', dict(n=n), weight=10 * n, timeout_s=600))
     return dict(
@@ -33,6 +34,6 @@ def plan(tier):
                      "decided exactly (normal form; z3 for residuals); holds for ALL matrices of the stated size; stacks (2,) etc. compared unit by unit"),
         bounds=dict(sl2_irrep_dims="2..6", adjoint_n="2 (quick) / 2,3 (thorough)", stack_shapes="(2,) quick; (1,),(2,),(2,1) thorough",
                     det_one_charts="a != 0 with d=(1+bc)/a, and a = 0 with c=-1/b (together: all of SL(2))"),
-        outside=["o_to_pgl as a homomorphism on orientation-reversing elements of O(2,1) (only the determinant-one round trip is checked)", "adjoint for n >= 4", "floating-point rounding"],
+        outside=["o_to_pgl on elements of O(2,1) that are not images of 2x2 matrices of determinant +-1 with non-vanishing entries (the round trip is checked for determinant 1 and -1; multiplicativity up to sign follows from it and the homomorphism goals of sl2_to_so21 only there)", "adjoint for n >= 4", "floating-point rounding"],
         assumptions=["invertible matrices where an inverse is taken (det != 0)", "real-number / exact complex semantics"],
     )
